@@ -938,8 +938,17 @@ impl FutWait {
 
 impl Wait for FutWait {
     #[cold]
-    fn wait(&self, _seq: usize, _w_pos: &AtomicUsize, _wc: &AtomicUsize) {
-        panic!("Somehow normal wait got called in futures queue");
+    fn wait(&self, seq: usize, w_pos: &AtomicUsize, wc: &AtomicUsize) {
+        // Reached by the blocking recv() of the futures receivers. There is no
+        // task to park here, so spin and then yield until the slot is ready.
+        for _ in 0..self.spins_first {
+            if check(seq, w_pos, wc) {
+                return;
+            }
+        }
+        while !check(seq, w_pos, wc) {
+            yield_now();
+        }
     }
 
     fn notify(&self) {
